@@ -27,6 +27,16 @@ def P():
     return pendulum
 
 
+def rust_module():
+    """the compiled helpers REBUILT from the working tree (injected by env.bootstrap in rs workers);
+    never the stale prebuilt .so lying in the source tree"""
+    import sys
+
+    import pendulum.helpers as H
+
+    return sys.modules.get("pendulum._pendulum") if H.with_extensions else None
+
+
 def tzarg(a):
     """how the target zone is handed to the API: object (default) or name"""
     zr = a["tz"]
@@ -360,6 +370,76 @@ def _contains(a, pre):
     return {"k": "bool", "v": bool(pre[2] in iv)}
 
 
+# ---------------------------------------------------------------- C07
+def _try(fn, *a, **kw):
+    try:
+        return enc(fn(*a, **kw))
+    except Exception as e:  # noqa: BLE001
+        return enc(e)
+
+
+def _lowlevel():
+    import pendulum.parsing.iso8601 as PY
+
+    RS = rust_module()
+    return PY.parse_iso8601, (RS.parse_iso8601 if RS else None)
+
+
+@op("iso_parse")
+def _iso_parse(a, pre):
+    from . import isoforms
+
+    text = isoforms.render(a["form"])
+    a["text"] = proj.cps(text)
+    py, rs = _lowlevel()
+    kw = {"exact": a["exact"]}
+    if a["tz"]["n"] != "UTC":
+        kw["tz"] = tzobj(a["tz"])
+    r = {"k": "parsed", "top": _try(P().parse, text, **kw), "py": _try(py, text)}
+    r["rs"] = _try(rs, text) if rs else r["py"]
+    return r
+
+
+@op("iso_year_scan")
+def _iso_year_scan(a, pre):
+    y, dk, ext, which = a["y"], a["dk"], a["ext"], a["which"]
+    py, rs = _lowlevel()
+    fn = {"top": lambda t: P().parse(t, exact=True), "py": py, "rs": rs or py}[which]
+    d = _dt.date(y, 1, 1)
+    dash = "-" if ext else ""
+    out, texts = [], []
+    while d.year == y:
+        if dk == "cal":
+            t = "%04d%s%02d%s%02d" % (d.year, dash, d.month, dash, d.day)
+        elif dk == "ord":
+            t = "%04d%s%03d" % (d.year, dash, d.timetuple().tm_yday)
+        else:
+            iy, iw, iwd = d.isocalendar()
+            t = "%04d%sW%02d%s%d" % (iy, dash, iw, dash, iwd)
+        texts.append(t)
+        try:
+            v = fn(t)
+            out.append([v.year, v.month, v.day] if hasattr(v, "year") and not hasattr(v, "hour") else
+                       ([v.year, v.month, v.day] if hasattr(v, "year") else [-2, -2, -2]))
+        except ValueError:
+            out.append([-1, -1, -1])
+        if d == _dt.date.max:
+            break
+        d += _dt.timedelta(days=1)
+    n = len(texts)
+    ks = sorted({1, max(1, n // 2), n, 59 if n > 59 else 1, 60 if n > 60 else 1})
+    return {"k": "scan", "v": out, "samples": [[k, proj.cps(texts[k - 1])] for k in ks]}
+
+
+@op("iso_roundtrip")
+def _iso_roundtrip(a, pre):
+    x = pre[0]
+    fmt = a["fmt"]
+    text = {"isoformat": x.isoformat, "str": x.__str__, "iso8601": x.to_iso8601_string, "rfc3339": x.to_rfc3339_string,
+            "atom": x.to_atom_string, "w3c": x.to_w3c_string}[fmt]()
+    return {"k": "rt", "text": proj.cps(text), "parsed": _try(P().parse, text)}
+
+
 # ---------------------------------------------------------------- execution
 class HarnessTimeout(Exception):
     """the call did not return within OP_TIMEOUT seconds (observed as non-termination)"""
@@ -596,12 +676,11 @@ def _iv_comp(a, pre):
 
     nx, ny = _native(x), _native(y)
     py = [int(v) for v in PH.precise_diff(nx, ny)]
-    try:
-        import pendulum._pendulum as RS
-
+    RS = rust_module()
+    if RS:
         d = RS.precise_diff(nx, ny)
         rs = [d.years, d.months, d.days, d.hours, d.minutes, d.seconds, d.microseconds, d.total_days]
-    except ImportError:
+    else:
         rs = py
     res = {"k": "ivc", "c": [int(v) for v in c], "in_months": int(iv.in_months()), "py": py, "rs": rs,
            "total_days": int(iv.in_days())}
